@@ -132,6 +132,7 @@ static unsigned char pat_fill(size_t g) { return (unsigned char) (200 + g % 50);
 
 static size_t parse_lens(char* s, size_t** out_lens) {
   size_t cap = 64, n = 0; size_t* l = malloc(cap * sizeof(*l)); char* tok; char* save;
+  if (strcmp(s, "-") != 0)
   for (tok = strtok_r(s, ",", &save); tok; tok = strtok_r(NULL, ",", &save)) {
     size_t cnt = 1, len;
     if (tok[0] == 'r') { char* x = strchr(tok, 'x'); cnt = (size_t) atol(tok + 1); len = (size_t) atol(x + 1); }
@@ -206,5 +207,6 @@ int main(int argc, char** argv) {
     run_case(line);
   }
   unlink(path);
+  free(line); free(obuf);
   return 0;
 }
